@@ -340,18 +340,6 @@ func lemmaViewMergeIdempotent(a, b *ClusterView) (once *ClusterView) {
 	return once
 }
 
-//@ func lemmaViewMergeCommutative
-//@   requires a != nil && b != nil && a != b && a.Members != b.Members && wfView(a) && wfView(b) && disjointViews(a, b)
-//@   requires len(a.Members) + len(b.Members) <= effLimit(a.MaxVersionVectorEntries) && len(a.Members) + len(b.Members) <= effLimit(b.MaxVersionVectorEntries)
-//@   ensures  sameMembership(ab, ba)
-func lemmaViewMergeCommutative(a, b *ClusterView) (ab, ba *ClusterView) {
-	ab = a.Snapshot()
-	ab.MergeFrom(b)
-	ba = b.Snapshot()
-	ba.MergeFrom(a)
-	return ab, ba
-}
-
 // one merge step (copy, then MergeFrom) is the join of the two memberships: the result holds exactly the ids of
 // both, and for every id the entry with the larger (Generation, LogicalClock) key
 //@ pure isJoin(x *ClusterView, a *ClusterView, b *ClusterView) bool =
@@ -369,6 +357,17 @@ func lemmaMergeIsJoin(a, b *ClusterView) *ClusterView {
 	x := a.Snapshot()
 	x.MergeFrom(b)
 	return x
+}
+
+// commutativity of the membership join, over lemmaMergeIsJoin's contract
+//@ func lemmaViewMergeCommutative
+//@   requires a != nil && b != nil && a != b && a.Members != b.Members && wfView(a) && wfView(b) && disjointViews(a, b)
+//@   requires len(a.Members) + len(b.Members) <= effLimit(a.MaxVersionVectorEntries) && len(a.Members) + len(b.Members) <= effLimit(b.MaxVersionVectorEntries)
+//@   ensures  sameMembership(ab, ba)
+func lemmaViewMergeCommutative(a, b *ClusterView) (ab, ba *ClusterView) {
+	ab = lemmaMergeIsJoin(a, b)
+	ba = lemmaMergeIsJoin(b, a)
+	return ab, ba
 }
 
 // associativity of the membership join, over lemmaMergeIsJoin's contract (which is proved against the real
